@@ -74,6 +74,11 @@ class Subject(Observable[_T], Observer[_T], abc.SubjectBase[_T]):
 
         with self.lock:
             self.check_disposed()
+            if not self.is_stopped:
+                # Record the error before the subject is marked as stopped: a
+                # subscriber arriving from another thread between the two steps
+                # would otherwise see "stopped without an error" and be completed.
+                self.exception = error
         super().on_error(error)
 
     def _on_error_core(self, error: Exception) -> None:
